@@ -85,6 +85,26 @@ def short_final_blocks(t, rnd):
     return jobs
 
 
+def table_block_sizes(t, rnd, limit=70000):
+    """block lengths around the frame header's table of common sizes (192, 576 * 2^n, 256 * 2^n): every multiple of 192 and 576 up to
+    4608 * 2, the powers of two and their neighbours - once as the configured block size, once as the length of the final short block"""
+    sizes = sorted({192 * k for k in range(1, 13)} | {576 * k for k in range(1, 17)} | {(256 << n) + d for n in range(0, 8) for d in (-1, 0, 1)}
+                   | {16, 17, 255, 65535, 65534})
+    jobs = []
+    for bs in sizes:
+        if bs > limit:
+            continue
+        ch = 1 if bs > 3000 else rnd.choice([1, 2])
+        base = {"rate": 44100, "bps": rnd.choice([8, 16]) if bs > 3000 else rnd.choice([8, 16, 24]), "channels": ch, "tag": "table-block-size", "inline_limit": 0}
+        jobs.append(dict(base, fe=rnd.choice(FES), opts={"block_size": bs, "max_lpc": rnd.choice([-1, 2]), "max_po": rnd.choice([0, 3]), "padding": -1, "seektable": "none"},
+                         pcm={"signal": rnd.choice(["walk", "small", "sine"]), "seed": rnd.randint(1, 99999), "frames": bs + rnd.choice([0, 1, 19])}))
+        big = min(b for b in (4096, 4608, 16384, 65535) if b >= bs)
+        if big != bs:
+            jobs.append(dict(base, fe=rnd.choice(FES), opts={"block_size": big, "max_lpc": rnd.choice([-1, 2]), "max_po": rnd.choice([0, 3]), "padding": -1, "seektable": "none"},
+                             pcm={"signal": rnd.choice(["walk", "small", "sine"]), "seed": rnd.randint(1, 99999), "frames": big + bs}))
+    return jobs
+
+
 def large_inputs(t, rnd, n, max_samples=2600, big=3):
     jobs = []
     for i in range(n):
